@@ -1,8 +1,162 @@
 import Driver.Util
-/-! Driver commands: Elect (stub — replaced by the real handler). -/
+import Slock.Model.Elect
+/-! Driver commands for the election model (M-ELECT).
+
+  elect <spec> <event>;<event>;…        one whole execution per line
+    spec   = A=<hex32>,<hex32>,…/<member>/<member>/…            (no blanks; A = palette of 16-byte log ids, raw byte order)
+    member = rank:weight:arbiter:ownAof:pid:cid:saved:r.r.r…:v.v.v…   (ownAof and v = palette indices; r = cached roles, v = cached ids, one per table entry)
+    event  = s<m> start candidacy | q<c>.<t> deliver request of candidate c to t (t=c: the self call) | r<c>.<t> deliver t's reply to c
+             | xq<c>.<t> lose the request | xr<c>.<t> lose the reply | R<m> restart from meta.pb | S<m> ArbiterStore.Save | Z snapshot
+    output = per event, `;`-joined:  <res>/<pid>.<cid>.<latch>/<phase><voteHost>   of the acting member
+             (start, r, xq, xr, R, S: the candidate / member; q: the target).  Z prints every member.
+  cmpaof <idA hex32> <idB hex32>        → -1 | 0 | 1        (CompareAofId)
+  majcount <arbiter flags ,-joined | ->  → GetMajorityMemberCount
+  votepick <hex32>:<rank>:<weight>:<arbiter>,…   → index of the response DoVote selects (or -)
+-/
 namespace Driver
+open Slock.Elect
+
+def natBytesLE : Nat → Nat → List UInt8
+  | 0, _ => []
+  | k + 1, n => (n % 256).toUInt8 :: natBytesLE k (n / 256)
+
+def encodeAof (a : AofId) : List UInt8 :=
+  natBytesLE 4 a.index ++ natBytesLE 4 a.offset ++ natBytesLE 8 a.time
+
+def parseAof (s : String) : Option AofId := do
+  let bs ← parseHexAux s.toList
+  if bs.length == 16 then some (decodeAofId bs) else none
+
+def showOpt : Option Nat → String
+  | none => "-"
+  | some h => toString h
+
+def showPhase : Phase → String
+  | .idle => "I" | .vote => "V" | .prop => "P" | .commit => "C" | .won => "W"
+
+def showMember (m : Member) : String :=
+  s!"{m.pid}.{m.cid}.{showOpt m.latch}/{showPhase m.phase}{showOpt m.voteHost}"
+
+def showFull (m : Member) : String :=
+  let vs := ".".intercalate (m.views.map (fun a => toHex (encodeAof a)))
+  let rs := ".".intercalate (m.roles.map toString)
+  s!"{m.pid}.{m.cid}.{showOpt m.latch}.{showOpt m.fromHost}.{m.pidx}.{m.saved}.{showPhase m.phase}{showOpt m.voteHost}.{toHex (encodeAof m.voteAof)}[{rs}][{vs}]"
+
+def showOutcome (self : Bool) : Outcome → String
+  | .none => "none"
+  | .started => "started"
+  | .waiting => "waiting"
+  | .done => "-"
+  | .vote r => if self then "self" else s!"v{r.host}.{r.weight}.{r.arbiter}.{toHex (encodeAof r.aof)}.{r.role}"
+  | .prop r => if self then "self" else
+      match r with
+      | .ok old => s!"ok{old}" | .reject => "REJECT" | .aofid => "AOFID" | .badHost => "HOST" | .propId n => s!"PID{n}"
+  | .commit r => if self then "self" else
+      match r with
+      | .ok => "ok" | .badHost => "HOST" | .propId => "PID" | .commitId => "CID"
+
+def dropS (s : String) (n : Nat) : String := String.ofList (s.toList.drop n)
+
+def parsePair (s : String) : Option (Nat × Nat) :=
+  match s.splitOn "." with
+  | [a, b] => do pure ((← a.toNat?), (← b.toNat?))
+  | _ => none
+
+def parseEvent (s : String) : Option Event :=
+  if s.startsWith "xq" then (parsePair (dropS s 2)).map (fun p => Event.dropReq p.1 p.2)
+  else if s.startsWith "xr" then (parsePair (dropS s 2)).map (fun p => Event.dropRep p.1 p.2)
+  else if s.startsWith "q" then (parsePair (dropS s 1)).map (fun p => Event.deliverReq p.1 p.2)
+  else if s.startsWith "r" then (parsePair (dropS s 1)).map (fun p => Event.deliverRep p.1 p.2)
+  else if s.startsWith "s" then (dropS s 1).toNat?.map Event.start
+  else if s.startsWith "R" then (dropS s 1).toNat?.map Event.restart
+  else if s.startsWith "S" then (dropS s 1).toNat?.map Event.save
+  else none
+
+def actor : Event → Nat
+  | .start m | .restart m | .save m => m
+  | .deliverReq _ t => t
+  | .deliverRep c _ | .dropReq c _ | .dropRep c _ => c
+
+def isSelfReq : Event → Bool
+  | .deliverReq c t => c == t
+  | _ => false
+
+def listGet? {α : Type} : List α → Nat → Option α
+  | [], _ => none
+  | a :: _, 0 => some a
+  | _ :: as, i + 1 => listGet? as i
+
+def parseIdxList (pal : List AofId) (s : String) : Option (List AofId) :=
+  (s.splitOn ".").mapM (fun x => do listGet? pal (← x.toNat?))
+
+def parseMember (pal : List AofId) (s : String) : Option Member :=
+  match s.splitOn ":" with
+  | [rank, weight, arbiter, own, pid, cid, saved, roles, views] => do
+    let ownA ← listGet? pal (← own.toNat?)
+    let rs ← (roles.splitOn ".").mapM String.toNat?
+    let vs ← parseIdxList pal views
+    pure { rank := ← rank.toNat?, weight := ← weight.toNat?, arbiter := ← arbiter.toNat?, ownAof := ownA,
+           pid := ← pid.toNat?, cid := ← cid.toNat?, saved := ← saved.toNat?, roles := rs, views := vs }
+  | _ => none
+
+def parseSpec (s : String) : Option State :=
+  match s.splitOn "/" with
+  | pal :: ms =>
+    if pal.startsWith "A=" then do
+      let palette ← ((dropS pal 2).splitOn ",").mapM parseAof
+      let members ← ms.mapM (parseMember palette)
+      pure { members, net := [] }
+    else none
+  | _ => none
+
+def runElect (s : State) : List String → List String → Option (List String)
+  | [], acc => some acc.reverse
+  | op :: ops, acc =>
+    if op == "Z" then
+      runElect s ops (("|".intercalate (s.members.map showFull)) :: acc)
+    else
+      match parseEvent op with
+      | none => none
+      | some e =>
+        let (s', o) := step s e
+        let line := showOutcome (isSelfReq e) o ++ "/" ++ showMember (getM s'.members (actor e))
+        runElect s' ops (line :: acc)
+
+def cmpToString (i : Int) : String := if i < 0 then "-1" else if i > 0 then "1" else "0"
+
+def parseResp (idx : Nat) (s : String) : Option VoteResp :=
+  match s.splitOn ":" with
+  | [aof, rank, weight, arbiter] => do
+    pure { host := idx, rank := ← rank.toNat?, weight := ← weight.toNat?, arbiter := ← arbiter.toNat?, aof := ← parseAof aof, role := 0 }
+  | _ => none
+
+def parseResps : Nat → List String → Option (List VoteResp)
+  | _, [] => some []
+  | i, s :: ss => do
+    let r ← parseResp i s
+    let rs ← parseResps (i + 1) ss
+    pure (r :: rs)
 
 def handleElect : List String → Option String
+  | ["elect", spec, evs] => do
+    let s ← parseSpec spec
+    let ops := (evs.splitOn ";").filter (· ≠ "")
+    let outs ← runElect s ops []
+    pure (";".intercalate outs)
+  | ["cmpaof", a, b] => do
+    let x ← parseAof a
+    let y ← parseAof b
+    pure (cmpToString (compareAofId x y))
+  | ["majcount", fl] =>
+    if fl == "-" then some (toString (getMajorityMemberCount []))
+    else do
+      let fs ← (fl.splitOn ",").mapM String.toNat?
+      pure (toString (getMajorityMemberCount fs))
+  | ["votepick", rs] => do
+    let resps ← parseResps 0 (rs.splitOn ",")
+    match choose none resps with
+    | none => pure "-"
+    | some r => pure (toString r.host)
   | _ => none
 
 end Driver
